@@ -184,6 +184,12 @@ pub fn vmap(name: &str, w: u32, sym: u32, sigma_hint: u32) -> u128 {
         // the type's maximum among the first symbols (so that even 3-symbol sequences contain it)
         "maxy" => pick([max, 0, max - 1, 1, 1u128 << (w / 2)]),
         "hmaxy" => pick([max.min(65535), 0, max.min(65535) - 1, 1, 255]),
+        // one symbol (the first / the last of the profile) far above 2^16, the others small: the table index of a frequent
+        // symbol needs 17 / 20 bits
+        "hbigfirst17" => if sym == 0 { (1u128 << 17) + 5 } else { sym as u128 }.min(max),
+        "hbiglast17" => if sym + 1 == sigma_hint { (1u128 << 17) + 5 } else { sym as u128 }.min(max),
+        "hbigfirst20" => if sym == 0 { (1u128 << 20) + 1 } else { sym as u128 }.min(max),
+        "hbiglast20" => if sym + 1 == sigma_hint { (1u128 << 20) + 1 } else { sym as u128 }.min(max),
         "hrev" => (sigma_hint.saturating_sub(1).saturating_sub(sym) as u128).min(max),
         "hgap" => ((sym as u128) * 3 + 1).min(max),
         // spread sigma symbols evenly over the value range of the type (keeps order)
